@@ -82,6 +82,7 @@ func workerMain(env Env, args []string) int {
 	out := fs.String("out", "", "")
 	wal := fs.String("wal", "", "")
 	keepPlans := fs.Bool("plans", false, "attach every literal plan to its result")
+	variant := fs.Bool("variant", false, "execute every plan in its alternative operation order (cross pass)")
 	_ = fs.Parse(args)
 	var idx []int
 	if *list != "" {
@@ -113,6 +114,9 @@ func workerMain(env Env, args []string) int {
 			fmt.Fprintf(wf, "S %d\n", i)
 		}
 		plan := GenPlan(*prop, *seed, i, *tier)
+		if *variant {
+			plan = Variant(plan)
+		}
 		res := ExecPlan(w, plan)
 		if *keepPlans {
 			res.Plan = plan
@@ -124,6 +128,12 @@ func workerMain(env Env, args []string) int {
 		_ = bw.Flush()
 		if wf != nil {
 			fmt.Fprintf(wf, "D %d\n", i)
+		}
+		if w.tainted {
+			// an abandoned, blocked goroutine may still exist in this process: hand over to a fresh node
+			_ = bw.Flush()
+			of.Close()
+			os.Exit(3)
 		}
 	}
 	hit := 0
@@ -188,6 +198,9 @@ func execMain(env Env, args []string) int {
 	var eo execOutput
 	for _, p := range ei.Plans {
 		eo.Results = append(eo.Results, ExecPlan(w, p))
+		if w.tainted {
+			break
+		}
 	}
 	if err := os.WriteFile(*out, JSONBytes(eo), 0o644); err != nil {
 		fmt.Fprintln(os.Stderr, err)
@@ -287,6 +300,10 @@ type death struct {
 // processes (worker j takes j, j+workers, ...), restarting a worker whose
 // node died after the plan that killed it.
 func runBatch(prop string, seed uint64, tier string, indices []int, workers int, gmp []int, tag string) *runOutcome {
+	return runBatchV(prop, seed, tier, indices, workers, gmp, tag, false)
+}
+
+func runBatchV(prop string, seed uint64, tier string, indices []int, workers int, gmp []int, tag string, variant bool) *runOutcome {
 	t0 := time.Now()
 	dir, err := os.MkdirTemp(os.Getenv("DST_SCRATCH"), "batch-"+tag)
 	if err != nil {
@@ -318,7 +335,7 @@ func runBatch(prop string, seed uint64, tier string, indices []int, workers int,
 					strs[k] = strconv.Itoa(v)
 				}
 				cmd := exec.Command(os.Getenv("DST_NODE"), "worker", "-property", prop, "-seed", strconv.FormatUint(seed, 10), "-tier", tier,
-					"-indices", strings.Join(strs, ","), "-out", out, "-wal", wal)
+					"-indices", strings.Join(strs, ","), "-out", out, "-wal", wal, fmt.Sprintf("-variant=%v", variant))
 				cmd.Env = append(os.Environ(), fmt.Sprintf("GOMAXPROCS=%d", gmp[j%len(gmp)]))
 				var eb bytes.Buffer
 				cmd.Stderr = &eb
@@ -364,6 +381,20 @@ func runBatch(prop string, seed uint64, tier string, indices []int, workers int,
 				}
 				if werr == nil {
 					return
+				}
+				if ee, ok := werr.(*exec.ExitError); ok && ee.ExitCode() == 3 {
+					// the node abandoned a blocked handler and asked to be replaced: not a death
+					var rest []int
+					for _, v := range todo {
+						if !doneIdx[v] {
+							rest = append(rest, v)
+						}
+					}
+					if len(rest) == len(todo) {
+						infra("worker %d asked for replacement without finishing a plan", j)
+					}
+					todo = rest
+					continue
 				}
 				if ee, ok := werr.(*exec.ExitError); ok && ee.ExitCode() == 2 && strings.Contains(eb.String(), "INFRASTRUCTURE") {
 					infra("worker %d: %s", j, tail(eb.String(), 800))
